@@ -226,8 +226,8 @@ PROPS = {
                 "required: non-zero exit within 10 s",
     },
     "C19": {
-        "extra_imports": ["Gofasta.Lemmas.SchedFaults", "Gofasta.Lemmas.SchedFaultsAgg", "Gofasta.Lemmas.SchedFaultsAggCode", "Gofasta.Lemmas.SchedFaultsChainHdr", "Gofasta.Props.Pipes", "Gofasta.Lemmas.SchedProofs", "Gofasta.Lemmas.SchedChainProofs"],
-        "extra_theorems": ["Gofasta.Lemmas.SchedFaultsChainHdr.chain_hdr_fault_reported", "Gofasta.Lemmas.SchedFaultsChainHdr.chain_hdr_fault_beyond_run_harmless", "Gofasta.Lemmas.SchedFaultsChainHdr.chain_hdr_written_is_prefix", "Gofasta.Lemmas.SchedFaultsChainHdr.chain_header_fault_immediate", "Gofasta.Lemmas.SchedFaultsChainHdr.chain_hdr_fault_maximal_run_write_error", "Gofasta.Lemmas.SchedFaultsChainHdr.chain_agg_hdr_fault_reported", "Gofasta.Lemmas.SchedFaultsChainHdr.chain_agg_hdr_fault_beyond_run_harmless", "Gofasta.Lemmas.SchedFaultsChainHdr.chain_agg_hdr_written_is_prefix", "Gofasta.Lemmas.SchedFaultsChainHdr.chain_agg_header_fault_immediate", "Gofasta.Lemmas.SchedFaultsChainHdr.sam_variants_hdr_fault_reported", "Gofasta.Lemmas.SchedFaultsChainHdr.sam_variants_hdr_fault_beyond_run_harmless", "Gofasta.Lemmas.SchedFaultsChainHdr.sam_variants_hdr_written_is_prefix", "Gofasta.Lemmas.SchedFaultsChainHdr.sam_variants_header_fault_immediate", "Gofasta.Lemmas.SchedFaultsChainHdr.sam_variants_agg_hdr_fault_reported", "Gofasta.Lemmas.SchedFaultsChainHdr.sam_variants_agg_hdr_fault_beyond_run_harmless", "Gofasta.Lemmas.SchedFaultsChainHdr.sam_variants_agg_hdr_written_is_prefix", "Gofasta.Lemmas.SchedFaultsChainHdr.sam_variants_agg_header_fault_immediate", "Gofasta.Lemmas.SchedFaultsAgg.agg_fault_reported", "Gofasta.Lemmas.SchedFaultsAgg.agg_fault_reported'", "Gofasta.Lemmas.SchedFaultsAgg.agg_fault_maximal_run_write_error", "Gofasta.Lemmas.SchedFaultsAgg.agg_fault_beyond_run_harmless", "Gofasta.Lemmas.SchedFaultsAgg.agg_written_is_prefix", "Gofasta.Lemmas.SchedFaultsAgg.agg_nothing_before_all_arrived", "Gofasta.Lemmas.SchedFaultsAgg.chain_agg_fault_reported", "Gofasta.Lemmas.SchedFaultsAgg.chain_agg_fault_beyond_run_harmless", "Gofasta.Lemmas.SchedFaultsAgg.chain_agg_written_is_prefix", "Gofasta.Lemmas.SchedFaultsAgg.hdr_fault_reported", "Gofasta.Lemmas.SchedFaultsAgg.hdr_fault_beyond_run_harmless", "Gofasta.Lemmas.SchedFaultsAgg.hdr_written_is_prefix", "Gofasta.Lemmas.SchedFaultsAgg.header_fault_immediate", "Gofasta.Lemmas.SchedFaultsAgg.agg_hdr_fault_reported", "Gofasta.Lemmas.SchedFaultsAgg.agg_header_fault_immediate", "Gofasta.Lemmas.SchedFaultsAgg.snps_agg_fault_reported", "Gofasta.Lemmas.SchedFaultsAgg.snps_agg_fault_beyond_run_harmless", "Gofasta.Lemmas.SchedFaultsAgg.snps_agg_written_is_prefix", "Gofasta.Lemmas.SchedFaultsAgg.snps_agg_header_fault_immediate", "Gofasta.Lemmas.SchedFaultsAgg.snps_header_fault_immediate", "Gofasta.Lemmas.SchedFaultsAgg.variants_agg_fault_reported", "Gofasta.Lemmas.SchedFaultsAgg.variants_agg_fault_beyond_run_harmless", "Gofasta.Lemmas.SchedFaultsAgg.variants_agg_written_is_prefix", "Gofasta.Lemmas.SchedFaultsAgg.sam_variants_agg_fault_reported", "Gofasta.Lemmas.SchedFaultsAgg.sam_variants_agg_fault_beyond_run_harmless", "Gofasta.Lemmas.SchedFaultsAgg.sam_variants_agg_written_is_prefix", "Gofasta.Lemmas.SchedFaultsAgg.snps_agg_code_fault_reported", "Gofasta.Lemmas.SchedFaultsAgg.snps_agg_code_fault_beyond_run_harmless", "Gofasta.Lemmas.SchedFaultsAgg.snps_agg_code_written_is_prefix", "Gofasta.Lemmas.SchedFaultsAgg.snps_agg_code_only_header_before_all_arrived", "Gofasta.Lemmas.SchedFaultsAgg.variants_agg_code_fault_reported", "Gofasta.Lemmas.SchedFaultsAgg.variants_agg_code_fault_beyond_run_harmless", "Gofasta.Lemmas.SchedFaultsAgg.variants_agg_code_written_is_prefix", "Gofasta.Lemmas.SchedFaultsAgg.sam_variants_agg_code_fault_reported", "Gofasta.Lemmas.SchedFaultsAgg.sam_variants_agg_code_fault_beyond_run_harmless", "Gofasta.Lemmas.SchedFaultsAgg.sam_variants_agg_code_written_is_prefix", "Gofasta.Lemmas.SchedFaults.sink_eq_reportsFailure", "Gofasta.Lemmas.SchedFaults.fault_reported", "Gofasta.Lemmas.SchedFaults.fault_reported'", "Gofasta.Lemmas.SchedFaults.fault_beyond_run_harmless", "Gofasta.Lemmas.SchedFaults.written_is_prefix", "Gofasta.Lemmas.SchedFaults.fault_beyond_run_maximal", "Gofasta.Lemmas.SchedFaults.fault_maximal_run_write_error", "Gofasta.Lemmas.SchedFaults.chain_fault_reported", "Gofasta.Lemmas.SchedFaults.chain_fault_beyond_run_harmless", "Gofasta.Lemmas.SchedFaults.chain_written_is_prefix", "Gofasta.Lemmas.SchedFaults.chain_fault_maximal_run_write_error", "Gofasta.Lemmas.SchedFaults.snps_fault_reported", "Gofasta.Lemmas.SchedFaults.snps_fault_beyond_run_harmless", "Gofasta.Lemmas.SchedFaults.snps_written_is_prefix", "Gofasta.Lemmas.SchedFaults.updown_list_fault_reported", "Gofasta.Lemmas.SchedFaults.updown_list_written_is_prefix", "Gofasta.Lemmas.SchedFaults.variants_fault_reported", "Gofasta.Lemmas.SchedFaults.variants_fault_beyond_run_harmless", "Gofasta.Lemmas.SchedFaults.variants_written_is_prefix", "Gofasta.Lemmas.SchedFaults.sam_variants_fault_reported", "Gofasta.Lemmas.SchedFaults.sam_variants_fault_beyond_run_harmless", "Gofasta.Lemmas.SchedFaults.sam_variants_written_is_prefix", "Gofasta.Lemmas.SchedFaults.Unchecked.unchecked_loses", "Gofasta.Lemmas.SchedFaults.Unchecked.unchecked_loses_middle", "Gofasta.Lemmas.SchedFaults.Unchecked.checked_reports", "Gofasta.Props.Pipes.drivers_conform", "Gofasta.Lemmas.SchedChain.chain_error_reported", "Gofasta.Lemmas.SchedChain.chain_no_deadlock", "Gofasta.Lemmas.Sched.error_reported", "Gofasta.Lemmas.Sched.maximal_run_error", "Gofasta.Lemmas.Sched.no_deadlock"],
+        "extra_imports": ["Gofasta.Lemmas.SchedFaults", "Gofasta.Lemmas.SchedFaultsAgg", "Gofasta.Lemmas.SchedFaultsAggCode", "Gofasta.Lemmas.SchedFaultsChainHdr", "Gofasta.Lemmas.FanoutFaults", "Gofasta.Props.Pipes", "Gofasta.Lemmas.SchedProofs", "Gofasta.Lemmas.SchedChainProofs"],
+        "extra_theorems": ["Gofasta.Lemmas.FanoutFaults.fanout_fault_reported", "Gofasta.Lemmas.FanoutFaults.fanout_fault_maximal_run", "Gofasta.Lemmas.FanoutFaults.fanout_fault_beyond_run_harmless", "Gofasta.Lemmas.FanoutFaults.fanout_no_spurious_error", "Gofasta.Lemmas.FanoutFaults.fanout_written_is_prefix", "Gofasta.Lemmas.FanoutFaults.closest_fault_reported", "Gofasta.Lemmas.FanoutFaults.closest_fault_beyond_run_harmless", "Gofasta.Lemmas.FanoutFaults.closest_written_is_prefix", "Gofasta.Lemmas.FanoutFaults.closest_text_model", "Gofasta.Lemmas.FanoutFaults.closestN_fault_reported", "Gofasta.Lemmas.FanoutFaults.closestN_fault_beyond_run_harmless", "Gofasta.Lemmas.FanoutFaults.closestN_written_is_prefix", "Gofasta.Lemmas.FanoutFaults.topranking_fault_reported", "Gofasta.Lemmas.FanoutFaults.topranking_fault_beyond_run_harmless", "Gofasta.Lemmas.FanoutFaults.topranking_written_is_prefix", "Gofasta.Lemmas.FanoutFaults.topranking_text_model", "Gofasta.Lemmas.FanoutFaults.w_fault_reported", "Gofasta.Lemmas.FanoutFaults.w_success_harmless", "Gofasta.Lemmas.FanoutFaults.w_nothing_before_fanin", "Gofasta.Lemmas.FanoutFaults.w_written_is_prefix", "Gofasta.Lemmas.FanoutFaults.w_error_is_write_failure", "Gofasta.Lemmas.SchedFaultsChainHdr.chain_hdr_fault_reported", "Gofasta.Lemmas.SchedFaultsChainHdr.chain_hdr_fault_beyond_run_harmless", "Gofasta.Lemmas.SchedFaultsChainHdr.chain_hdr_written_is_prefix", "Gofasta.Lemmas.SchedFaultsChainHdr.chain_header_fault_immediate", "Gofasta.Lemmas.SchedFaultsChainHdr.chain_hdr_fault_maximal_run_write_error", "Gofasta.Lemmas.SchedFaultsChainHdr.chain_agg_hdr_fault_reported", "Gofasta.Lemmas.SchedFaultsChainHdr.chain_agg_hdr_fault_beyond_run_harmless", "Gofasta.Lemmas.SchedFaultsChainHdr.chain_agg_hdr_written_is_prefix", "Gofasta.Lemmas.SchedFaultsChainHdr.chain_agg_header_fault_immediate", "Gofasta.Lemmas.SchedFaultsChainHdr.sam_variants_hdr_fault_reported", "Gofasta.Lemmas.SchedFaultsChainHdr.sam_variants_hdr_fault_beyond_run_harmless", "Gofasta.Lemmas.SchedFaultsChainHdr.sam_variants_hdr_written_is_prefix", "Gofasta.Lemmas.SchedFaultsChainHdr.sam_variants_header_fault_immediate", "Gofasta.Lemmas.SchedFaultsChainHdr.sam_variants_agg_hdr_fault_reported", "Gofasta.Lemmas.SchedFaultsChainHdr.sam_variants_agg_hdr_fault_beyond_run_harmless", "Gofasta.Lemmas.SchedFaultsChainHdr.sam_variants_agg_hdr_written_is_prefix", "Gofasta.Lemmas.SchedFaultsChainHdr.sam_variants_agg_header_fault_immediate", "Gofasta.Lemmas.SchedFaultsAgg.agg_fault_reported", "Gofasta.Lemmas.SchedFaultsAgg.agg_fault_reported'", "Gofasta.Lemmas.SchedFaultsAgg.agg_fault_maximal_run_write_error", "Gofasta.Lemmas.SchedFaultsAgg.agg_fault_beyond_run_harmless", "Gofasta.Lemmas.SchedFaultsAgg.agg_written_is_prefix", "Gofasta.Lemmas.SchedFaultsAgg.agg_nothing_before_all_arrived", "Gofasta.Lemmas.SchedFaultsAgg.chain_agg_fault_reported", "Gofasta.Lemmas.SchedFaultsAgg.chain_agg_fault_beyond_run_harmless", "Gofasta.Lemmas.SchedFaultsAgg.chain_agg_written_is_prefix", "Gofasta.Lemmas.SchedFaultsAgg.hdr_fault_reported", "Gofasta.Lemmas.SchedFaultsAgg.hdr_fault_beyond_run_harmless", "Gofasta.Lemmas.SchedFaultsAgg.hdr_written_is_prefix", "Gofasta.Lemmas.SchedFaultsAgg.header_fault_immediate", "Gofasta.Lemmas.SchedFaultsAgg.agg_hdr_fault_reported", "Gofasta.Lemmas.SchedFaultsAgg.agg_header_fault_immediate", "Gofasta.Lemmas.SchedFaultsAgg.snps_agg_fault_reported", "Gofasta.Lemmas.SchedFaultsAgg.snps_agg_fault_beyond_run_harmless", "Gofasta.Lemmas.SchedFaultsAgg.snps_agg_written_is_prefix", "Gofasta.Lemmas.SchedFaultsAgg.snps_agg_header_fault_immediate", "Gofasta.Lemmas.SchedFaultsAgg.snps_header_fault_immediate", "Gofasta.Lemmas.SchedFaultsAgg.variants_agg_fault_reported", "Gofasta.Lemmas.SchedFaultsAgg.variants_agg_fault_beyond_run_harmless", "Gofasta.Lemmas.SchedFaultsAgg.variants_agg_written_is_prefix", "Gofasta.Lemmas.SchedFaultsAgg.sam_variants_agg_fault_reported", "Gofasta.Lemmas.SchedFaultsAgg.sam_variants_agg_fault_beyond_run_harmless", "Gofasta.Lemmas.SchedFaultsAgg.sam_variants_agg_written_is_prefix", "Gofasta.Lemmas.SchedFaultsAgg.snps_agg_code_fault_reported", "Gofasta.Lemmas.SchedFaultsAgg.snps_agg_code_fault_beyond_run_harmless", "Gofasta.Lemmas.SchedFaultsAgg.snps_agg_code_written_is_prefix", "Gofasta.Lemmas.SchedFaultsAgg.snps_agg_code_only_header_before_all_arrived", "Gofasta.Lemmas.SchedFaultsAgg.variants_agg_code_fault_reported", "Gofasta.Lemmas.SchedFaultsAgg.variants_agg_code_fault_beyond_run_harmless", "Gofasta.Lemmas.SchedFaultsAgg.variants_agg_code_written_is_prefix", "Gofasta.Lemmas.SchedFaultsAgg.sam_variants_agg_code_fault_reported", "Gofasta.Lemmas.SchedFaultsAgg.sam_variants_agg_code_fault_beyond_run_harmless", "Gofasta.Lemmas.SchedFaultsAgg.sam_variants_agg_code_written_is_prefix", "Gofasta.Lemmas.SchedFaults.sink_eq_reportsFailure", "Gofasta.Lemmas.SchedFaults.fault_reported", "Gofasta.Lemmas.SchedFaults.fault_reported'", "Gofasta.Lemmas.SchedFaults.fault_beyond_run_harmless", "Gofasta.Lemmas.SchedFaults.written_is_prefix", "Gofasta.Lemmas.SchedFaults.fault_beyond_run_maximal", "Gofasta.Lemmas.SchedFaults.fault_maximal_run_write_error", "Gofasta.Lemmas.SchedFaults.chain_fault_reported", "Gofasta.Lemmas.SchedFaults.chain_fault_beyond_run_harmless", "Gofasta.Lemmas.SchedFaults.chain_written_is_prefix", "Gofasta.Lemmas.SchedFaults.chain_fault_maximal_run_write_error", "Gofasta.Lemmas.SchedFaults.snps_fault_reported", "Gofasta.Lemmas.SchedFaults.snps_fault_beyond_run_harmless", "Gofasta.Lemmas.SchedFaults.snps_written_is_prefix", "Gofasta.Lemmas.SchedFaults.updown_list_fault_reported", "Gofasta.Lemmas.SchedFaults.updown_list_written_is_prefix", "Gofasta.Lemmas.SchedFaults.variants_fault_reported", "Gofasta.Lemmas.SchedFaults.variants_fault_beyond_run_harmless", "Gofasta.Lemmas.SchedFaults.variants_written_is_prefix", "Gofasta.Lemmas.SchedFaults.sam_variants_fault_reported", "Gofasta.Lemmas.SchedFaults.sam_variants_fault_beyond_run_harmless", "Gofasta.Lemmas.SchedFaults.sam_variants_written_is_prefix", "Gofasta.Lemmas.SchedFaults.Unchecked.unchecked_loses", "Gofasta.Lemmas.SchedFaults.Unchecked.unchecked_loses_middle", "Gofasta.Lemmas.SchedFaults.Unchecked.checked_reports", "Gofasta.Props.Pipes.drivers_conform", "Gofasta.Lemmas.SchedChain.chain_error_reported", "Gofasta.Lemmas.SchedChain.chain_no_deadlock", "Gofasta.Lemmas.Sched.error_reported", "Gofasta.Lemmas.Sched.maximal_run_error", "Gofasta.Lemmas.Sched.no_deadlock"],
         "streams": {"C19": (250, 2500)},
         "thorough_seeds": 3,
         "cli": True,
